@@ -46,4 +46,42 @@ def _c17():
     }
 
 
+def _c01():
+    ST = ("-Z", "stubbing")
+    hs = [
+        {"name": "c01::c01a_sass_loud_comment_4", "tiers": Q, "flags": ST, "covers": ["end", "err", "closed"], "watchdog": 10,
+         "bound": "indented-syntax skip_loud_comment on `/*` + 4 arbitrary Unicode tokens, unwind 8"},
+        {"name": "c01::c01a_sass_loud_comment_6", "tiers": T, "flags": ST, "covers": ["end", "err", "closed"], "watchdog": 10,
+         "bound": "indented-syntax skip_loud_comment on `/*` + 6 arbitrary Unicode tokens, unwind 10"},
+        {"name": "c01::c01b_loud_comment_4", "tiers": Q, "covers": ["end", "err", "consumed"],
+         "bound": "BaseParser::skip_loud_comment at any cursor of 4 arbitrary tokens"},
+        {"name": "c01::c01b_loud_comment_6", "tiers": T, "covers": ["end", "err", "consumed"],
+         "bound": "BaseParser::skip_loud_comment at any cursor of 6 arbitrary tokens"},
+        {"name": "c01::c01b_silent_comment_5", "tiers": Q, "covers": ["end", "consumed"],
+         "bound": "BaseParser::skip_silent_comment at any cursor of 5 arbitrary tokens"},
+        {"name": "c01::c01b_whitespace_3", "tiers": Q, "covers": ["end", "err", "consumed"],
+         "bound": "BaseParser::whitespace (with comment skipping) at any cursor of 3 arbitrary tokens, unwind 5"},
+        {"name": "c01::c01b_whitespace_4", "tiers": T, "covers": ["end"],
+         "bound": "BaseParser::whitespace from cursor 0 over 4 arbitrary tokens, unwind 6"},
+        {"name": "c01::c01b_expect_whitespace_3", "tiers": Q, "covers": ["end", "err", "consumed"],
+         "bound": "BaseParser::expect_whitespace at any cursor of 3 arbitrary tokens, unwind 5"},
+        {"name": "c01::c01b_spaces_6", "tiers": Q, "covers": ["end", "consumed"],
+         "bound": "BaseParser::spaces at any cursor of 6 arbitrary tokens"},
+    ]
+    return {
+        "flags": (),
+        "timeout": {"quick": 900, "thorough": 2400},
+        "harnesses": hs,
+        "functions": ["parse::sass::SassParser::skip_loud_comment", "parse::base::BaseParser::{whitespace, whitespace_without_comments, "
+                      "scan_comment, skip_silent_comment, skip_loud_comment, expect_whitespace, spaces}", "lexer::Lexer::{next, peek, peek_n, span_at_index}"],
+        "bounds": "token buffers of the stated length, every token an arbitrary Unicode scalar; unwinding assertions on",
+        "stubs": ["std::hash::RandomState::new -> fixed keys (Options::default builds an empty HashMap)",
+                  "alloc::fmt::format -> empty string (error message text is not the subject)"],
+        "assumptions": ["the lexer span covers the token positions (4 bytes per token)"],
+        "outside": "the statement, expression, selector and at-rule parsers as wholes; evaluator and serializer termination; "
+                   "inputs longer than the stated token counts; non-UTF-8 entry bytes",
+    }
+
+
+PROPS["C01"] = _c01()
 PROPS["C17"] = _c17()
